@@ -1,4 +1,6 @@
 
+type __ = Obj.t
+
 val negb : bool -> bool
 
 type nat =
@@ -499,6 +501,8 @@ val to_fift : bits -> n list * bool
 val strip_tag : n -> bits option
 
 val concat_nibbles : n list -> bits
+
+val from_fift : n list -> bool -> bits option
 
 val write_bits_g :
   (bool -> bs -> bs * unit res) -> bits -> bs -> bs * unit res
@@ -2400,6 +2404,31 @@ val crun :
 
 val cinit : 'a1 -> msg0 list list -> 'a1 csys
 
+val magic_tcp_pong : n
+
+val magic_tcp_auth_nonce : n
+
+val reconnect_timeout_ms : n
+
+val magic_type : n list -> n
+
+val is_control : n list -> bool
+
+type arrival =
+| APacket of n * n list
+| AClosed of n
+
+type session_end =
+| SRunning
+| SClosed
+| STimeout
+
+val reader_run : bool -> n -> arrival list -> n list list * session_end
+
+val conn_run : bool -> bool -> nat -> arrival list list -> (nat * n list) list
+
+val app_received : (nat * n list) list -> n list list
+
 type ks = n list
 
 val ks_next : ks -> n * ks
@@ -2437,6 +2466,10 @@ val group_by_sender : nat -> (n list * n list) list -> sx list
 val run_conc : sx -> sx
 
 val run_stress : sx -> sx
+
+val arrivals_of : string -> sx list -> arrival list
+
+val run_conn : sx -> sx
 
 val imm_of : (bytes -> bytes) -> cell -> imm res
 
@@ -2914,6 +2947,48 @@ val json_str_body : n list -> (n list * n list) option
 
 val json_unmarshal : n list -> (z * n list) res
 
+val anycast_open : n list
+
+val anycast_suffix : (n * n) option -> n list
+
+val hex_upper : n -> n
+
+val fift_print : bits -> n list
+
+val ma_json_body : msgaddr -> n list
+
+val ma_json_print : msgaddr -> n list
+
+val drop_quotes : n list -> n list
+
+val trim_quotes : n list -> n list
+
+val split_colons : n list -> n list list
+
+val hex_digits_of : n list -> n list option
+
+val fift_parse : n list -> bits option
+
+val ends_underscore : n list -> bool
+
+val is_numch : n -> bool
+
+val span_num : n list -> n list * n list
+
+val scan_u32 : n list -> (n * n list) option
+
+val strip_prefix : n list -> n list -> n list option
+
+val parse_anycast0 : n list -> (n * n) res
+
+val is_int8 : z -> bool
+
+val ma_json_parse_with : (z -> bool) -> n list -> msgaddr res
+
+val ma_json_parse : n list -> msgaddr res
+
+val account_to_ma_json : z -> n list -> n list
+
 val crc16_table : n list
 
 val out_acc : (z * n list) res -> sx
@@ -2972,6 +3047,20 @@ val run_json : sx -> sx
 
 val run_unjson : sx -> sx
 
+val run_unjson_quoted : sx -> sx
+
+val any_sx0 : (n * n) option -> sx list
+
+val ma_sx : msgaddr -> sx
+
+val run_ma_json : sx -> sx
+
+val run_ma_json_any : sx -> sx
+
+val run_ma_unjson : sx -> sx
+
+val run_conc0 : sx -> sx
+
 type str = n list
 
 val eSyntax : n
@@ -3004,13 +3093,15 @@ val go_slice : nat -> nat -> str -> str res
 
 val trim_left : (n -> bool) -> str -> str
 
+val frev : str -> str
+
 val trim : (n -> bool) -> str -> str
 
 val is_quote : n -> bool
 
 val is_quote_sp_nl : n -> bool
 
-val trim_quotes : str -> str
+val trim_quotes0 : str -> str
 
 val split_on : n -> str -> str list
 
@@ -3034,7 +3125,7 @@ val parse_big : str -> z res
 
 val hex_lower0 : n -> n
 
-val hex_upper : n -> n
+val hex_upper0 : n -> n
 
 val hex_byte0 : n -> str
 
@@ -3238,7 +3329,7 @@ val print_anycast : anycast -> str
 
 val print_msgaddr : msgaddr0 -> str
 
-val parse_anycast0 : str -> (n * n) res
+val parse_anycast1 : str -> (n * n) res
 
 val parse_addr_value : str -> msgaddr0 res
 
@@ -3357,7 +3448,7 @@ val dec_pos :
   (bytes1 -> (value0 * bytes1) option) -> positive -> value0 list -> bytes1
   -> (value0 list * bytes1) option
 
-val frev : 'a1 list -> 'a1 list
+val frev0 : 'a1 list -> 'a1 list
 
 val dec_count :
   (bytes1 -> (value0 * bytes1) option) -> n -> bytes1 -> (value0
@@ -4192,6 +4283,10 @@ val lifetime_of : z option -> z
 
 val expiry : z -> z -> z
 
+val api_create_message_body :
+  (cell -> bytes res) -> ('a1 -> bytes -> bits) -> wallet -> 'a1 -> z -> z ->
+  z option -> rawmsg list -> n -> n -> n -> cell res
+
 val ext_bits : z -> bits -> bool -> bits
 
 val ext_msg : z -> bits -> cell option -> cell -> cell res
@@ -4319,7 +4414,7 @@ val out_res1 : ('a1 -> sx) -> 'a1 res -> sx
 
 val hash_sx : cell -> sx
 
-val any_sx0 : (n * n) option -> sx
+val any_sx1 : (n * n) option -> sx
 
 val any_of_sx0 : sx -> (n * n) option
 
@@ -4354,6 +4449,8 @@ val run_verify : sx -> sx
 val run_v5verify : sx -> sx
 
 val run_decode0 : sx -> sx
+
+val run_expiry : sx -> sx
 
 val wallet_code_bocs : (n * n list) list
 
@@ -4446,6 +4543,32 @@ val api_send_v2 :
   wallet -> 'a1 -> z -> z -> acct option -> rawmsg list -> n -> z -> bool ->
   poll list -> sent
 
+type wop =
+| OStateInit
+| OMutate of cell
+| OAddress
+| ONext of acct
+
+type wans =
+| AInit of cell res
+| ADone
+| AAddr of (z * bytes) res
+| ANextP of (n * cell option) res
+
+val fresh_answer :
+  (version -> cell) -> (cell -> bytes res) -> wallet -> wop -> wans
+
+type design = { d_init : __; d_step : (wallet -> __ -> wop -> __ * wans) }
+
+type d_state = __
+
+val run_design : design -> wallet -> d_state -> wop list -> wans list
+
+val library_design : (version -> cell) -> (cell -> bytes res) -> design
+
+val run_history0 :
+  (version -> cell) -> (cell -> bytes res) -> wallet -> wop list -> wans list
+
 val addr_sx1 : (z * bytes) -> sx
 
 val run_addr0 : sx -> sx
@@ -4461,6 +4584,12 @@ val hist_of_sx : z -> nat -> z -> sx list -> n option -> poll list
 val sent_sx : version -> cell -> sx
 
 val run_send15 : sx -> sx
+
+val op_of_sx0 : sx -> wop option
+
+val ans_sx : wans -> sx
+
+val run_history15 : sx -> sx
 
 type cache = (nat * imm) list
 
@@ -4502,7 +4631,7 @@ val hop_of_sx : sx -> hop0 option
 
 val hops_of_sx : sx list -> hop0 list option
 
-val run_history0 : sx -> sx
+val run_history1 : sx -> sx
 
 val row_of : n -> imm -> sx
 
@@ -4557,5 +4686,19 @@ val small_step : n -> sx -> bool
 val out_sx : ((node list * nat) * bytes res) -> sx
 
 val run_hist1 : sx -> sx
+
+val conc_answer :
+  (node list -> bytes res list) -> bool -> bool -> bool -> node list -> bytes
+  res * bytes res
+
+val conc_answers :
+  (node list -> bytes res list) -> bool -> bool -> bool -> node list list ->
+  (bytes res * bytes res) list
+
+val dags_of_sx : sx list -> node list list option
+
+val conc_sx : node list -> (bytes res * bytes res) -> sx
+
+val run_conc1 : sx -> sx
 
 val run : string -> sx -> sx
